@@ -567,10 +567,10 @@ Fixpoint find_factor (fuel : nat) (f oldW oldH sw sh : Z) : Z :=
            else find_factor k (f + 1) oldW oldH sw sh
   end.
 
-(* Which clients does the re-pointing loop of rfbNewFramebuffer visit?  It uses rfbGetClientIterator,
-   which skips clients that are closed but not yet reaped (sock == -1, still in the client list until
-   rfbProcessEvents calls rfbClientConnectionGone); rfbGetClientIteratorWithClosed would visit them. *)
-Definition newfb_rescale_visits_closed : bool := false.
+(* Which clients does the re-pointing loop of rfbNewFramebuffer visit?  Since fix_C16_3 it uses
+   rfbGetClientIteratorWithClosed: also the clients that are closed but not yet reaped (sock == -1, still
+   in the client list until rfbProcessEvents calls rfbClientConnectionGone). *)
+Definition newfb_rescale_visits_closed : bool := true.
 
 Definition rescale_visits (c : client) : bool :=
   cLive c || (newfb_rescale_visits_closed && cClosed c).
